@@ -175,8 +175,15 @@ def make_case(rng):
         case["cg"] = cc
     elif cls == "wrong_dim_item":
         # an array-valued field given element by element, one element being a quantity of its own
-        field = rng.choice(["t_sample", "state", "unitarray"])
-        good = {"t_sample": [0, 1, 0], "state": [0, 0, 1], "unitarray": [rng.randint(-2, 2) for _ in range(3)]}[field]
+        # ... or a per-environment quantity given as a dictionary of quantity objects, one of them of another dimension; or a single
+        # quantity object handed to a field of another dimension (script times, node volume, edge surface and distance)
+        field = rng.choice(["t_sample", "state", "unitarray", "species_D", "species_density", "reaction_kf", "reaction_kr",
+                            "time_step", "t_max", "sampling_interval", "node_volume", "edge_surface", "edge_distance"])
+        good = {"t_sample": [0, 1, 0], "state": [0, 0, 1], "unitarray": [rng.randint(-2, 2) for _ in range(3)],
+                "species_D": [2, -1, 0], "species_density": [-3, 0, 1], "reaction_kf": [0, -1, 0], "reaction_kr": [0, -1, 0],
+                "time_step": [0, 1, 0], "t_max": [0, 1, 0], "sampling_interval": [0, 1, 0], "node_volume": [3, 0, 0],
+                "edge_surface": [2, 0, 0], "edge_distance": [1, 0, 0]}[field]
+        case["via_setter"] = rng.random() < 0.5
         dim = list(good)
         if faulty:
             while tuple(dim) == tuple(good) or not any(dim):
@@ -290,6 +297,36 @@ def observe(case):
             vals = [1.0, 2.0, 3.0]
             vals[case["position"]] = item
             return run(lambda: U.UnitArray(vals, mk(case["array_units"], case["expected"])))
+        field = case["field"]
+        if field in ("species_D", "species_density", "reaction_kf", "reaction_kr"):
+            envs = ["a", "b", "default"]
+            vals = {e: U.UnitValue(1.0, mk(case["item_units"], case["expected"])) for e in envs}
+            vals[envs[case["position"]]] = item
+            us = sysgen.py_sys(U, case["array_units"])
+            attr = {"species_D": "D", "species_density": "density", "reaction_kf": "kf", "reaction_kr": "kr"}[field]
+            if field.startswith("species"):
+                if case.get("via_setter"):
+                    sp = strengths.Species("A", units_system=us)
+                    return run(lambda: setattr(sp, attr, vals))
+                return run(lambda: strengths.Species("A", units_system=us, **{attr: vals}))
+            if case.get("via_setter"):
+                re_ = strengths.Reaction("A -> B", units_system=us)
+                return run(lambda: setattr(re_, attr, vals))
+            return run(lambda: strengths.Reaction("A -> B", units_system=us, **{attr: vals}))
+        if field in ("time_step", "t_max", "sampling_interval"):
+            sysm = strengths.RDSystem(network=strengths.RDNetwork(species=[strengths.Species("A")], reactions=[]), space=strengths.RDGridSpace(w=2))
+            if case.get("via_setter"):
+                sc = strengths.RDScript(system=sysm, t_sample=[0.0, 1.0])
+                return run(lambda: setattr(sc, field, item))
+            return run(lambda: strengths.RDScript(system=sysm, t_sample=[0.0, 1.0], **{field: item}))
+        if field == "node_volume":
+            from strengths.rdspace import RDGraphSpaceNode
+            return run(lambda: RDGraphSpaceNode(volume=item, environment=0))
+        if field in ("edge_surface", "edge_distance"):
+            from strengths.rdspace import RDGraphSpaceEdge
+            kw = {"surface": 1.0, "distance": 1.0}
+            kw[field.split("_")[1]] = item
+            return run(lambda: RDGraphSpaceEdge(i=0, j=1, **kw))
         system = strengths.RDSystem(network=strengths.RDNetwork(species=[strengths.Species("A")], reactions=[]), space=strengths.RDGridSpace(w=3),
                                     units_system=sysgen.py_sys(U, case["array_units"]))
         if case["field"] == "state":
